@@ -604,3 +604,125 @@ func c11BufInit(c *Ctx) {
 		c.undecided("pipelineRecvAck/init-phase-reads", "fewer reads of the init-phase flag than expected")
 	}
 }
+
+// c11LoopProgress (contradiction): a loop whose only exit test compares values that cannot change inside the loop
+// never ends once entered. (A dropped counter update: `for i := 0; i < n; {...}`.) Values count as changeable
+// whenever they are loaded from memory or come from a call inside the loop, so loops that wait on shared state
+// are never reported.
+func c11LoopProgress(c *Ctx) {
+	loops := 0
+	for _, f := range c.AllFns {
+		if !c.inPkg(f) || len(f.Blocks) == 0 {
+			continue
+		}
+		fname := c.fnName(f)
+		// reachability between blocks
+		reach := map[*ssa.BasicBlock]map[*ssa.BasicBlock]bool{}
+		var dfs func(src, b *ssa.BasicBlock)
+		dfs = func(src, b *ssa.BasicBlock) {
+			for _, s := range b.Succs {
+				if !reach[src][s] {
+					reach[src][s] = true
+					dfs(src, s)
+				}
+			}
+		}
+		for _, b := range f.Blocks {
+			reach[b] = map[*ssa.BasicBlock]bool{}
+			dfs(b, b)
+		}
+		k := 0
+		for _, b := range f.Blocks {
+			i := blockIf(b)
+			if i == nil || !reach[b][b] {
+				continue
+			}
+			inLoop := func(x *ssa.BasicBlock) bool { return x == b || (reach[b][x] && reach[x][b]) }
+			stay, leave := -1, -1
+			for s, succ := range b.Succs {
+				if inLoop(succ) {
+					stay = s
+				} else {
+					leave = s
+				}
+			}
+			if stay < 0 || leave < 0 {
+				continue
+			}
+			loops++
+			// another way out of the loop?
+			other := false
+			for _, x := range f.Blocks {
+				if !inLoop(x) {
+					continue
+				}
+				for _, s := range x.Succs {
+					if !inLoop(s) && x != b {
+						other = true
+					}
+				}
+				for _, in := range x.Instrs {
+					switch in.(type) {
+					case *ssa.Return, *ssa.Panic:
+						other = true
+					}
+				}
+			}
+			if other {
+				continue
+			}
+			var invariant func(v ssa.Value, depth int) bool
+			invariant = func(v ssa.Value, depth int) bool {
+				if depth > 6 {
+					return false
+				}
+				switch x := v.(type) {
+				case *ssa.Const, *ssa.Parameter, *ssa.FreeVar, *ssa.Global, *ssa.Function, *ssa.Builtin:
+					return true
+				case *ssa.Phi:
+					if !inLoop(x.Block()) {
+						return true
+					}
+					for j, e := range x.Edges {
+						if inLoop(x.Block().Preds[j]) && e != ssa.Value(x) {
+							return false
+						}
+					}
+					return true
+				case *ssa.BinOp:
+					if !inLoop(x.Block()) {
+						return true
+					}
+					return invariant(x.X, depth+1) && invariant(x.Y, depth+1)
+				case *ssa.Convert:
+					return !inLoop(x.Block()) || invariant(x.X, depth+1)
+				case *ssa.UnOp:
+					if !inLoop(x.Block()) {
+						return true
+					}
+					if x.Op == token.MUL || x.Op == token.ARROW {
+						return false // memory / channel: may change
+					}
+					return invariant(x.X, depth+1)
+				case *ssa.Call:
+					if !inLoop(x.Block()) {
+						return true
+					}
+					if calleeID(&x.Call) == "builtin len" {
+						return invariant(x.Call.Args[0], depth+1)
+					}
+					return false
+				case ssa.Instruction:
+					return !inLoop(x.Block())
+				}
+				return false
+			}
+			if invariant(i.Cond, 0) {
+				k++
+				c.bad(fmt.Sprintf("%s/loop-cannot-end.%d", fname, k), c.ipos(i), "the only exit test of this loop compares values that do not change inside the loop: once entered it never ends")
+			}
+		}
+	}
+	c.sites += loops
+	c.check(loops >= 40, "loops/examined", "", fmt.Sprintf("%d loop exit tests examined; none is loop-invariant without another way out", loops), fmt.Sprintf("only %d loop exit tests found", loops))
+}
